@@ -87,6 +87,13 @@ def main():
                 "confirmed": {"demo_clean_rc": rc_clean, "demo_with_change_rc": rc_mut, "baseline_tests_lost": len(missing)},
                 "ran": [f"./check {p}" for p in results], "results": results,
                 "detected_by": [p for p, r in results.items() if r["rc"] == 1]}
+        if os.path.exists(f"{dst}/meta.json"):
+            try:
+                oldm = json.load(open(f"{dst}/meta.json"))
+                if "history" in oldm:
+                    meta["history"] = oldm["history"]
+            except Exception:  # noqa: BLE001
+                pass
         json.dump(meta, open(f"{dst}/meta.json", "w"), indent=1)
     rc, o = sh("git -C /repo status --short")
     print("repo status after:", o.strip() or "clean")
